@@ -20,6 +20,7 @@ EXPLANATION = (
     "_perform_rollbacks, _consume_resources and the store into _pending_jobs are dominated by the not-dry-run outcome; C28.2 who-may-call "
     "Executor.submit/submit_script: the scheduler's exec handler and executor-to-executor delegation only; C28.3 subrun forwards dryrun in run_config, "
     "the event loop stops on an empty queue under dry-run, run() maps a pending result to DryRunResult, handle advance is skipped in _postprocess_result. C28.4 (necessary condition of the prediction clause) Scheduler methods that query the backend cache or validate cached values read the dry-run flag only to log; no backend function takes a dryrun parameter."
+    ' C28.5 no reject_job site of the hand-off is dominated by the false edge of `self._dryrun` (outside exception handlers): a job the real run fails before any task runs must fail the dry run too, otherwise `stops early => a real run executes a task` is false.'
 )
 
 SUBMIT_ALLOWED = {
